@@ -135,6 +135,76 @@ fn run(v: &Value) -> Result<String, String> {
                 Err(e) => Ok(format!("Err({e})")),
             }
         }
+        "transfer_history" => {
+            // {"window": u64, "ring_capacity": u64 (optional), "ops": [["record_sent", n], ["record_ack", file, off],
+            //  ["cancel", "reason"], ["advance", file], ["wait_credit", chunk_len], ["push_replay", off, data_len, wire_len],
+            //  ["resume", file, off], ["wait_reconnect"]]}
+            // Checked against an independent mathematical-integer model of C11/C13.
+            use repe::stream::{CreditError, TransferControl};
+            let window = v["window"].as_u64().unwrap();
+            let ctl = match v.get("ring_capacity").and_then(|x| x.as_u64()) {
+                Some(c) => TransferControl::with_replay_capacity(window, c),
+                None => TransferControl::new(window),
+            };
+            let mut first_cancel: Option<String> = None;
+            let mut log = Vec::new();
+            for op in v["ops"].as_array().unwrap() {
+                let name = op[0].as_str().unwrap();
+                let (s0, a0) = ctl.offsets();
+                match name {
+                    "record_sent" => ctl.record_sent(op[1].as_u64().unwrap()),
+                    "record_ack" => {
+                        ctl.record_ack(op[1].as_u64().unwrap() as u32, op[2].as_u64().unwrap());
+                    }
+                    "cancel" => {
+                        let r = op[1].as_str().unwrap().to_string();
+                        ctl.cancel(r.clone());
+                        if first_cancel.is_none() {
+                            first_cancel = Some(r);
+                        }
+                        if ctl.cancel_reason() != first_cancel {
+                            return Err(format!("cancel reason {:?} != first reason {:?}", ctl.cancel_reason(), first_cancel));
+                        }
+                    }
+                    "advance" => ctl.advance_to_file(op[1].as_u64().unwrap() as u32),
+                    "wait_credit" => {
+                        let c = op[1].as_u64().unwrap();
+                        let r = ctl.wait_for_credit(c, std::time::Instant::now());
+                        let (s, a) = ctl.offsets();
+                        let inflight = s as u128 - a as u128;
+                        match r {
+                            Ok(()) => {
+                                if first_cancel.is_some() {
+                                    return Err("credit granted after cancel".into());
+                                }
+                                if !(inflight == 0 || inflight + c as u128 <= window as u128) {
+                                    return Err(format!(
+                                        "credit granted although in_flight {inflight} + chunk {c} > window {window}"
+                                    ));
+                                }
+                            }
+                            Err(CreditError::Cancelled(r)) => {
+                                if Some(r.clone()) != first_cancel {
+                                    return Err(format!("wait reported cancel reason {r:?}, first was {first_cancel:?}"));
+                                }
+                            }
+                            Err(CreditError::Timeout) => {
+                                if first_cancel.is_some() {
+                                    return Err("wait returned Timeout after cancel".into());
+                                }
+                            }
+                        }
+                    }
+                    other => panic!("unknown op {other}"),
+                }
+                let (s1, a1) = ctl.offsets();
+                if a1 > s1 {
+                    return Err(format!("after {name}: acked {a1} > sent {s1}"));
+                }
+                log.push(format!("{name}:({s0},{a0})->({s1},{a1})"));
+            }
+            Ok(log.join(" "))
+        }
         other => panic!("unknown replay entry `{other}`"),
     }
 }
